@@ -36,7 +36,7 @@ static const char *tnames[] = {
 static int target = -1;
 static unsigned long long max_steps_per_call = 0;
 static double max_ratio = 0;
-static unsigned long long n_exec = 0, n_ok_results = 0, n_err_results = 0;
+static unsigned long long n_exec = 0, n_ok_results = 0, n_err_results = 0, n_hs_completed = 0;
 
 /* VM work bound: steps per push call must stay linear in the bytes pushed */
 #define STEP_BASE   200000ull
@@ -63,6 +63,10 @@ static size_t
 next_chunk(uint32_t *st, size_t remaining)
 {
 	size_t k;
+	/* two fixed plans (seed bytes 0xFE, 0xFD): byte by byte; alternately everything offered / one byte */
+	if (*st == 0xFFFFFFFEu) return 1;
+	if (*st == 0xFFFFFFFDu) { *st = 0xFFFFFFFCu; return remaining; }
+	if (*st == 0xFFFFFFFCu) { *st = 0xFFFFFFFDu; return 1; }
 	*st = *st * 1103515245u + 12345u;
 	switch ((*st >> 16) & 7) {
 	case 0: k = 1; break;
@@ -166,13 +170,14 @@ t_engine_pre(int role, const uint8_t *data, size_t len)
 		else { c.buflen = BR_SSL_BUFSIZE_INPUT; c.buflen_out = BR_SSL_BUFSIZE_OUTPUT; }
 		break;
 	}
-	c.keykind = (data[0] >> 4) % 3;
+	c.keykind = ((data[0] >> 4) & 3) % 3;
 	c.client_auth = role == 1 ? ((data[0] >> 6) & 1) : ((data[0] >> 6) & 3) % 3;
 	memset(c.seed, 0x5A, 32);
-	cst = data[1];
+	cst = data[1] >= 0xFD && data[1] != 0xFF ? 0xFFFFFF00u + data[1] : data[1];
 	if (!tp_ep_start(&ep, &c)) fz_viol("setup", "reset failed");
 	feed_engine(&ep, data + 2, len - 2, &cst);
 	if (tp_ep_closed(&ep)) n_err_results ++; else n_ok_results ++;
+	if (ep.ever_sendapp) n_hs_completed ++;   /* the engine became ready for application data */
 	tp_ep_free(&ep);
 }
 
@@ -320,7 +325,7 @@ t_x509_minimal(const uint8_t *data, size_t len)
 		for (i = 0; i < 3; i ++) { ne[i].buf = nb[i]; ne[i].len = (data[0] & 4) ? 8 : sizeof nb[i]; }
 		br_x509_minimal_set_name_elements(xc, ne, 3);
 	}
-	cst = data[1];
+	cst = data[1] >= 0xFD && data[1] != 0xFF ? 0xFFFFFF00u + data[1] : data[1];
 	xc->vtable->start_chain(&xc->vtable, (data[0] & 8) ? "localhost" : ((data[0] & 16) ? NULL : "www.example.com"));
 	/* certificates: 2-byte length prefix each (up to 4) */
 	while (off + 2 <= len && ncert < 4) {
@@ -821,18 +826,88 @@ gen_handshake_seeds(int victim_role)
 		/* record everything the victim's peer sends */
 		while (n ++ < 100000) {
 			tp_fifo *f = victim_role == 0 ? &p.s2c : &p.c2s;
-			size_t before = f->wr;
+			uint64_t before = f->total;
 			int moved = tp_pump_step(&p);
-			if (f->wr > before) tp_fifo_put(&rec, f->data + before, f->wr - before);
+			/* the FIFO rewinds when it runs empty: locate the new bytes from the running total */
+			if (f->total > before) {
+				size_t d = (size_t)(f->total - before);
+				if (d > f->wr) { fprintf(stderr, "corpus: FIFO accounting\n"); exit(2); }
+				tp_fifo_put(&rec, f->data + f->wr - d, d);
+			}
 			if (!moved) break;
+		}
+		{
+			/* the recording must be a whole number of well-formed records ending with the peer's
+			   Finished (and possibly application-phase records): a broken recording silently
+			   removes the later handshake states from the seed corpus */
+			const unsigned char *w = rec.data + rec.rd;
+			size_t wl = tp_fifo_len(&rec), o = 0;
+			int nrec = 0, seen_ccs = 0;
+			while (o + 5 <= wl) {
+				size_t rl = ((size_t)w[o + 3] << 8) | w[o + 4];
+				if (w[o] < 20 || w[o] > 23 || w[o + 1] != 3 || o + 5 + rl > wl) break;
+				if (w[o] == 20) seen_ccs = 1;
+				o += 5 + rl; nrec ++;
+			}
+			if (o != wl || !seen_ccs || nrec < 3 || !tp_ep_ready(&p.c) || !tp_ep_ready(&p.s)) {
+				fprintf(stderr, "corpus: recorded handshake is not well-formed (records=%d parsed=%zu of %zu ccs=%d)\n", nrec, o, wl, seen_ccs);
+				exit(2);
+			}
 		}
 		gbuf[0] = d0; gbuf[1] = 0xFF;
 		memcpy(gbuf + 2, rec.data + rec.rd, tp_fifo_len(&rec));
 		emit(gbuf, 2 + tp_fifo_len(&rec));
 		gbuf[1] = 0x03;   /* same bytes, small chunks */
 		emit(gbuf, 2 + tp_fifo_len(&rec));
+		/* framing variants: each cleartext record up to and including ChangeCipherSpec carries extra
+		   bytes after its content, delivered byte by byte / header-then-one-byte (the record is then
+		   still incomplete when its content is processed) */
+		{
+			const unsigned char *w = rec.data + rec.rd;
+			size_t wl = tp_fifo_len(&rec), o = 0;
+			int ri = 0;
+			while (o + 5 <= wl && ri < 12) {
+				size_t rl = ((size_t)w[o + 3] << 8) | w[o + 4];
+				static const size_t extra_ccs[3] = { 1, 3, 31 };
+				int ei, ne = w[o] == 20 ? 3 : 1, sd;
+				if (o + 5 + rl > wl) break;
+				for (ei = 0; ei < ne; ei ++) for (sd = 0xFD; sd <= 0xFE; sd ++) {
+					size_t k = w[o] == 20 ? extra_ccs[ei] : 3, n2 = 2;
+					gbuf[1] = (unsigned char)sd;
+					memcpy(gbuf + n2, w, o + 5 + rl); n2 += o + 5 + rl;
+					gbuf[2 + o + 3] = (unsigned char)((rl + k) >> 8); gbuf[2 + o + 4] = (unsigned char)(rl + k);
+					memset(gbuf + n2, 0x10 + ri, k); n2 += k;
+					memcpy(gbuf + n2, w + o + 5 + rl, wl - (o + 5 + rl)); n2 += wl - (o + 5 + rl);
+					emit(gbuf, n2);
+				}
+				if (w[o] == 20) break;
+				o += 5 + rl; ri ++;
+			}
+		}
 		tp_fifo_free(&rec);
 		tp_pair_free(&p);
+	}
+}
+
+/* unprotected alert / unknown-type records before any handshake byte, whole and cut short,
+ * for every buffer layout: small inputs from which the fuzzer reaches the record-layer
+ * corner cases of the cleartext phase quickly */
+static void
+gen_prehandshake_record_seeds(void)
+{
+	static const unsigned char bodies[][10] = {
+		{ 2, 1, 0 }, { 9, 1, 0, 1, 0, 1, 42, 1, 0, 0 }, { 4, 1, 42, 1, 0 }, { 2, 2, 40 }, { 3, 1, 0, 2 }, { 1, 1 }
+	};
+	size_t bi;
+	int lay, typ;
+	for (lay = 0; lay < 3; lay ++) for (bi = 0; bi < sizeof bodies / sizeof bodies[0]; bi ++) for (typ = 21; typ <= 23; typ += 2) {
+		size_t bl = bodies[bi][0], cut;
+		for (cut = 1; cut <= bl; cut ++) {
+			gbuf[0] = (unsigned char)(lay | (2 << 2)); gbuf[1] = 0xFF;
+			gbuf[2] = (unsigned char)typ; gbuf[3] = 3; gbuf[4] = 1; gbuf[5] = 0; gbuf[6] = (unsigned char)bl;
+			memcpy(gbuf + 7, bodies[bi] + 1, cut);
+			emit(gbuf, 7 + cut);
+		}
 	}
 }
 
@@ -862,8 +937,8 @@ gen_corpus(void)
 	keys[0] = FX_srv_rsa_key; klen[0] = FX_srv_rsa_key_len; keys[1] = FX_srv_ecec_key; klen[1] = FX_srv_ecec_key_len;
 	keys[2] = FX_srv_ec384_key; klen[2] = FX_srv_ec384_key_len; keys[3] = FX_weak_rsa_key; klen[3] = FX_weak_rsa_key_len;
 	switch (target) {
-	case 0: gen_handshake_seeds(0); break;
-	case 1: gen_handshake_seeds(1); break;
+	case 0: gen_handshake_seeds(0); gen_prehandshake_record_seeds(); break;
+	case 1: gen_handshake_seeds(1); gen_prehandshake_record_seeds(); break;
 	case 2: case 3: {
 		/* scripts: app data, close_notify, warning alert, HelloRequest / garbage handshake, CCS, raw garbage, wrong seq */
 		static const unsigned char s1[] = { 0x03, 5, 0, 'h','e','l','l','o', 0x01, 2, 0, 1, 0 };
@@ -1095,9 +1170,9 @@ gen_corpus(void)
 static void
 at_exit_stats(void)
 {
-	fprintf(stderr, "FZ_STATS target=%s execs=%llu ok_results=%llu err_results=%llu max_steps_per_call=%llu max_steps_per_byte=%.1f t0_steps=%llu c06_checks=%lld\n",
+	fprintf(stderr, "FZ_STATS target=%s execs=%llu ok_results=%llu err_results=%llu max_steps_per_call=%llu max_steps_per_byte=%.1f t0_steps=%llu c06_checks=%lld hs_completed=%llu\n",
 		target >= 0 ? tnames[target] : "?", n_exec, n_ok_results, n_err_results, max_steps_per_call, max_ratio,
-		br_verif_t0_steps, tp_calls);
+		br_verif_t0_steps, tp_calls, n_hs_completed);
 }
 
 int LLVMFuzzerInitialize(int *argc, char ***argv);
